@@ -26,6 +26,21 @@ CLAUSES.append(inv({"classes/missing/one.yml": cls("missing.one"), "nodes/n.yml"
 CLAUSES.append(inv({"classes/a.yml": cls("a"), "nodes/n.yml": cls("n", ["a"])}, ignore_class_notfound=True, patterns=["("]))
 
 
+UNI_NAMES = ["dienste.größe", "übergang.alt", "äb", "naïve.café", "zone.東京", "d.x1", "plain.name", "Ünï.ÇØdé", "a.b", "日本"]
+UNI_PATS = ["^dienste\\.\\w+$", "(?i)^ÜBERGANG\\.", "^.{2}$", "^.{3}$", "^[^.]+\\.[^.]+$", "\\w+\\.café$", "^zone\\...$", "^zone\\.....$", "\\d$", "^\\w+$",
+            "^d\\.gr..e$", "größe$", "(?i)ünï", "^\\S+$", "\\bcafé\\b", "^..$", "^....?$", "東", "^[a-z.]+$", "^[^a-z]+$"]
+
+
+def uni_case(r):
+    """One node, one missing class with a (mostly) non-ASCII name, patterns using constructs the model does not cover;
+    the expected outcome is computed with Python's re (Unicode-aware like the regex crate's default)."""
+    name = r.choice(UNI_NAMES)
+    pats = [r.choice(UNI_PATS) for _ in range(r.range(1, 3))]
+    c = inv({"classes/a.yml": cls("a"), "nodes/n.yml": cls("n", ["a", name])}, ignore_class_notfound=True, patterns=pats)
+    c["py_regex"] = {"missing": name, "patterns": pats}
+    return c
+
+
 class C16(InvProp):
     id = "C16"
     parts = ("nodes",)
@@ -38,7 +53,22 @@ class C16(InvProp):
     def corpus(self):
         return [dict(c) for c in CLAUSES] + super().corpus()
 
+    def judge(self, req, impl, reply):
+        pr = req.get("py_regex")
+        if pr and isinstance(impl, dict) and "nodes" in impl:
+            import re as _re
+            expect_ignored = any(_re.search(q, pr["missing"]) for q in pr["patterns"])
+            got = core.norm_result(impl["nodes"].get("n"), True)
+            ok = (got[0] == "ok") if expect_ignored else (got[0] == "err" and got[1][0] == "classNotFound" and got[1][1] == pr["missing"])
+            why = "" if ok else "missing class %r with patterns %s: expected %s, the node %s" % (
+                pr["missing"], pr["patterns"], "to be ignored (a pattern matches)" if expect_ignored else "a class-not-found error naming it (no pattern matches)",
+                "renders" if got[0] == "ok" else "fails with %s" % (got[1],))
+            return dict(agree=True, spec_ok=None, impl_oracle=(None if ok else False), concrete=not ok, why=why)
+        return super().judge(req, impl, reply)
+
     def cases(self, tier, seed):
+        for j in range(120 if tier == "quick" else 3000):
+            yield uni_case(Rng(seed, "C16:uni", j))
         N = 250 if tier == "quick" else 6000
         for i in range(N):
             r = Rng(seed, "C16", i)
